@@ -632,7 +632,9 @@ class FakeSerialModule:
     def write(self, data):
         self.written.append(bytes(data))
         line = self.outcome_fn(bytes(data))
-        if line is not None:
+        if isinstance(line, list):
+            self.lines.extend(line)
+        elif line is not None:
             self.lines.append(line)
 
     def read_until(self, sep):
@@ -668,7 +670,7 @@ def run_atx(seed, res):
             line = b"N\n" if oc == "none" or cmd.response is None else ("J%02X\n" % v).encode()
             # what else the hat's line protocol expresses: 'Z' = the transmission met a conflict on the bus and has to be
             # repeated; a backward frame although the command expects none; 'X' (garbled reception, see known findings)
-            variant = r.choice(["plain", "plain", "plain", "conflict-first", "spurious-answer", "garbled"])
+            variant = r.choice(["plain", "plain", "plain", "conflict-first", "spurious-answer", "garbled", "monitor-then-conflict"])
             if variant == "spurious-answer" and cmd.response is not None:
                 variant = "plain"
             if variant == "spurious-answer":
@@ -679,6 +681,9 @@ def run_atx(seed, res):
 
             def reply(data, line=line, variant=variant, nwrites=nwrites):
                 nwrites[0] += 1
+                if variant == "monitor-then-conflict" and nwrites[0] == 1:
+                    # the hat also relays what it hears on the bus: four such lines, then the conflict report
+                    return [b"H6B01\n", b"H6D02\n", b"HFF00\n", b"H0380\n", b"Z\n"]
                 return b"Z\n" if (variant == "conflict-first" and nwrites[0] == 1) else line
             mod = FakeSerialModule(reply)
             A.serial = mod
@@ -701,7 +706,7 @@ def run_atx(seed, res):
                     res.violation("C16/atx/garbled-line-X", f"the hat answered 'X' to {cmd}: send gave "
                                   f"{out[1]!r}" + (f" ({type(out[1]).__name__})" if out[0] == "exc" else ""), wit)
                 continue
-            if variant == "conflict-first" and out[0] == "ok" and mod.written.count(mod.written[0]) > 2:
+            if variant in ("conflict-first", "monitor-then-conflict") and out[0] == "ok" and mod.written.count(mod.written[0]) > 2:
                 res.observe("atx-conflict-repeats-the-command-more-than-once", f"{cmd}: written {len(mod.written)} times after one 'Z'")
             if out[0] == "exc":
                 res.violation(f"C16/atx/send-raised/{type(out[1]).__name__}", f"send({cmd}) raised {type(out[1]).__name__}: {out[1]}",
